@@ -24,7 +24,7 @@ MODEL_MODULES = ["Ebv.Model.MapCalls"]
 DRIVER = "Drivers/C10.lean"
 THEOREMS = [
     "Ebv.C10.C10", "Ebv.C10.C10_exact", "Ebv.C10.geometry_positive", "Ebv.C10.percpu_read_exact",
-    "Ebv.C10.hashvar_get_needs_eight", "Ebv.C10.mmap_within_value",
+    "Ebv.C10.hashvar_get_needs_eight", "Ebv.C10.mmap_within_value", "Ebv.C10.no_map_no_calls", "Ebv.C10.percpu_online_too_short",
 ]
 TRUSTED = ["hand-written model Ebv.MapCalls of the buffer lengths and create_map geometry of every user-space map entry point, tied by exact "
            "correspondence (command, key length, value length, geometry, mmap length) with the real API driven under an emulated kernel",
